@@ -4,6 +4,7 @@
   `FuzzyHashData::compare` / `FuzzyHashCompareTarget` by C02.
 -/
 import FfuzzyProofs.Properties.C02
+import FfuzzyProofs.Windows
 namespace Ffuzzy.C10
 open Ffuzzy Ffuzzy.Spec
 
@@ -219,5 +220,89 @@ theorem compare_laws (s2 : Nat) (hs2 : s2 ≤ 64) (a b : FH) (ha : FH.Valid s2 t
   have : (a.log.toNat = b.log.toNat ∧ a.blockHash1 = b.blockHash1 ∧ a.blockHash2 = b.blockHash2) ↔ FH.eq a b = true := by
     rw [heq]; unfold FH.abs; simp
   rw [this]
+
+/-! ### windows -/
+
+theorem inter_iff_common7 (a b : List UInt8) (ka kb : UInt8) (ha : ∀ x ∈ a, x.toNat < 64) (hb : ∀ x ∈ b, x.toNat < 64)
+    (hka : ka.toNat < 32) (hkb : kb.toNat < 32) :
+    (∃ x, x ∈ indexWindows a ka ∧ x ∈ indexWindows b kb) ↔ (ka.toNat = kb.toNat ∧ common7 a b = true) := by
+  rw [Windows.index_inter_iff a b ka kb ha hb hka hkb, C09.common7_iff]
+  unfold C09.Common7
+  constructor
+  · rintro ⟨h1, h2⟩; exact ⟨by rw [h1], h2⟩
+  · rintro ⟨h1, h2⟩; exact ⟨UInt8.toNat_inj.mp h1, h2⟩
+
+/-- **C10 (windows).** the candidate relation holds exactly when the index-window sets of the two
+    hashes (block hash 1 at the block size index, block hash 2 at the index plus one — 31 for the
+    largest block size) intersect -/
+theorem candidate_iff_windows (ka kb : UInt8) (a1 a2 b1 b2 : List UInt8)
+    (h1 : ∀ x ∈ a1, x.toNat < 64) (h2 : ∀ x ∈ a2, x.toNat < 64)
+    (h3 : ∀ x ∈ b1, x.toNat < 64) (h4 : ∀ x ∈ b2, x.toNat < 64)
+    (hka : ka.toNat < 31) (hkb : kb.toNat < 31) :
+    candSpec ka.toNat a1 a2 kb.toNat b1 b2 = true ↔
+      ∃ x, x ∈ indexWindows a1 ka ++ indexWindows a2 (ka + 1) ∧ x ∈ indexWindows b1 kb ++ indexWindows b2 (kb + 1) := by
+  have ea : (ka + 1).toNat = ka.toNat + 1 := by
+    rw [UInt8.toNat_add]; show (ka.toNat + 1) % 256 = _; omega
+  have eb : (kb + 1).toNat = kb.toNat + 1 := by
+    rw [UInt8.toNat_add]; show (kb.toNat + 1) % 256 = _; omega
+  have i11 := inter_iff_common7 a1 b1 ka kb h1 h3 (by omega) (by omega)
+  have i12 := inter_iff_common7 a1 b2 ka (kb + 1) h1 h4 (by omega) (by omega)
+  have i21 := inter_iff_common7 a2 b1 (ka + 1) kb h2 h3 (by omega) (by omega)
+  have i22 := inter_iff_common7 a2 b2 (ka + 1) (kb + 1) h2 h4 (by omega) (by omega)
+  rw [ea] at i21 i22
+  rw [eb] at i12 i22
+  have split : (∃ x, x ∈ indexWindows a1 ka ++ indexWindows a2 (ka + 1) ∧ x ∈ indexWindows b1 kb ++ indexWindows b2 (kb + 1)) ↔
+      ((∃ x, x ∈ indexWindows a1 ka ∧ x ∈ indexWindows b1 kb) ∨ (∃ x, x ∈ indexWindows a1 ka ∧ x ∈ indexWindows b2 (kb + 1)) ∨
+       (∃ x, x ∈ indexWindows a2 (ka + 1) ∧ x ∈ indexWindows b1 kb) ∨ (∃ x, x ∈ indexWindows a2 (ka + 1) ∧ x ∈ indexWindows b2 (kb + 1))) := by
+    simp only [List.mem_append]
+    constructor
+    · rintro ⟨x, hx1 | hx1, hx2 | hx2⟩
+      · exact Or.inl ⟨x, hx1, hx2⟩
+      · exact Or.inr (Or.inl ⟨x, hx1, hx2⟩)
+      · exact Or.inr (Or.inr (Or.inl ⟨x, hx1, hx2⟩))
+      · exact Or.inr (Or.inr (Or.inr ⟨x, hx1, hx2⟩))
+    · rintro (⟨x, a, b⟩ | ⟨x, a, b⟩ | ⟨x, a, b⟩ | ⟨x, a, b⟩)
+      · exact ⟨x, Or.inl a, Or.inl b⟩
+      · exact ⟨x, Or.inl a, Or.inr b⟩
+      · exact ⟨x, Or.inr a, Or.inl b⟩
+      · exact ⟨x, Or.inr a, Or.inr b⟩
+  rw [split, i11, i12, i21, i22]
+  unfold candSpec
+  by_cases e1 : ka.toNat = kb.toNat
+  · rw [if_pos e1]
+    simp only [Bool.or_eq_true]
+    constructor
+    · rintro (h | h)
+      · exact Or.inl ⟨e1, h⟩
+      · exact Or.inr (Or.inr (Or.inr ⟨by omega, h⟩))
+    · rintro (⟨_, h⟩ | ⟨h, _⟩ | ⟨h, _⟩ | ⟨_, h⟩)
+      · exact Or.inl h
+      · omega
+      · omega
+      · exact Or.inr h
+  · rw [if_neg e1]
+    by_cases e2 : ka.toNat + 1 = kb.toNat
+    · rw [if_pos e2]
+      constructor
+      · intro h; exact Or.inr (Or.inr (Or.inl ⟨e2, h⟩))
+      · rintro (⟨h, _⟩ | ⟨h, _⟩ | ⟨_, h⟩ | ⟨h, _⟩)
+        · omega
+        · omega
+        · exact h
+        · omega
+    · rw [if_neg e2]
+      by_cases e3 : ka.toNat = kb.toNat + 1
+      · rw [if_pos e3]
+        constructor
+        · intro h; exact Or.inr (Or.inl ⟨e3, h⟩)
+        · rintro (⟨h, _⟩ | ⟨_, h⟩ | ⟨h, _⟩ | ⟨h, _⟩)
+          · omega
+          · exact h
+          · omega
+          · omega
+      · rw [if_neg e3]
+        constructor
+        · intro h; exact absurd h (by simp)
+        · rintro (⟨h, _⟩ | ⟨h, _⟩ | ⟨h, _⟩ | ⟨h, _⟩) <;> omega
 
 end Ffuzzy.C10
